@@ -317,7 +317,7 @@ pub fn run(rep: &mut Report) {
         .into();
     rep.assumptions = std_assumptions();
     super::run_corpus(rep, replay);
-    let per = tier.pick(3_000, 100_000);
+    let per = tier.pick(8_000, 100_000);
     for es in 1..=2u32 {
         for n in 2..=32u32 {
             // complete sources where small
@@ -346,7 +346,7 @@ pub fn run(rep: &mut Report) {
         }
     }
     // generic <-> generic
-    let gper = tier.pick(1_500, 40_000);
+    let gper = tier.pick(4_000, 40_000);
     for dir in 0..3usize {
         for &m in &MS {
             let ses = [2u32, 1, 2][dir];
